@@ -686,6 +686,11 @@ func TestSurvey(t *testing.T) {
 			}
 			if first[key] == "" {
 				first[key] = o.Fail
+				if d := os.Getenv("C19_DUMP"); d != "" {
+					_ = os.WriteFile(fmt.Sprintf("%s/fail-%d.js", d, len(first)), []byte(m19.Render(normalize(c), false).Src), 0o644)
+					_ = os.WriteFile(fmt.Sprintf("%s/fail-%d.caught.js", d, len(first)), []byte(m19.Render(normalize(c), true).Src), 0o644)
+					_ = os.WriteFile(fmt.Sprintf("%s/fail-%d.txt", d, len(first)), []byte(o.Fail), 0o644)
+				}
 			}
 		}
 		hist[key]++
